@@ -43,6 +43,55 @@ prop("C17", "TestC17", "exploration",
      q, t, required_labels=["codon:ambiguous-resolvable", "char", "string:len>=2"],
      exhaustive_note="all 15^3 codons x {lenient, strict, dictionary}; all 32 accepted + 95 rejected ASCII characters")
 
+q, t = tiers(4, 3000, 16, 30000, floor_q=500, floor_t=5000)
+prop("C03", "TestC03", "exploration",
+     "Every symbol pair x gap mode x letter case x column is enumerated (6936 one-difference alignments, complete for the per-column "
+     "decision), then rapid generates whole alignments (width 1..40, thorough 1..300; 1..8 records; 17-symbol alphabet in either case; "
+     "wrapped/CRLF/no-final-newline layouts; reference also ambiguous) and the full output text is compared with a set-disjointness model.",
+     "Oracle = IUPAC base-set table written from the statement; output compared byte for byte (header, row order, item order, upper case).",
+     "bounded-exhaustive enumeration + property-based testing (rapid) against an independent reference model",
+     "rapid: reference and 1..8 records over ACGTRYSWKMBDHVN-? (70% A/C/G/T), two thirds of records derived from the reference with 0..4 "
+     "edits; non-trivial = some reported SNP involves a non-A/C/G/T symbol, or --hard-gaps with a '-' column; distinct = hash of the case",
+     q, t, required_labels=["snp-with-ambiguity-code", "hardgap-column", "wrapped", "crlf"],
+     exhaustive_note="17x17 symbol pairs x {soft,hard gaps} x 4 case combinations x 3 columns")
+
+q, t = tiers(4, 2000, 16, 20000, floor_q=500, floor_t=5000)
+prop("C06", "TestC06", "exploration",
+     "rapid builds target sets that force ties (exact copies, same distance with different completeness through ambiguity padding, "
+     "few mutable columns), all-N and heavily ambiguous targets at any file position, and runs plain / -n K / -d D / both / --table with "
+     "K around the number of targets and D at, just below and just above an occurring distance. For raw and snp the returned list must equal "
+     "the first K within D of the documented total order computed by the model (exact: one correctly rounded integer division); for tn93 a "
+     "validity predicate (sorted within 1e-9, no omitted target closer than the last returned, exact tie-breaks for bit-identical tuples).",
+     "Oracle distances are the C07 definitions; completeness is 12/|set| per symbol as documented. Undefined-distance targets may follow defined ones but never take their slots.",
+     "property-based testing (rapid) against a reference total order / validity predicate",
+     "1..3 queries, 1..12 targets of width 6..30 derived from one balanced base; non-trivial = tie at the K boundary, completeness "
+     "tie-break inside the list, or an undefined-distance target present; distinct = hash of the case",
+     q, t, required_labels=["tie-at-boundary", "boundary-tie-broken-by-completeness", "boundary-tie-broken-by-file-order", "undefined-target-present", "mode:plain", "mode:n", "mode:d", "mode:nd", "table"])
+
+q, t = tiers(4, 2500, 16, 30000, floor_q=300, floor_t=3000)
+prop("C07", "TestC07", "exploration",
+     "All 17x17 symbol pairs are appended as one extra column to two fixed contexts for each measure (1734 cases: complete for the per-column "
+     "contribution to snp, raw and to P1/P2/Q/L of tn93); rapid then generates pairs of width 4..60 (thorough 200) over the full alphabet, with "
+     "transitions and transversions placed by construction on jointly resolved columns of a base-balanced target so that eq. 7 is defined. "
+     "snp and raw are compared as identical printed strings, tn93 within 5e-9 of Tamura & Nei eq. 7 typed in from the paper; symmetry "
+     "(files swapped), raw in [0,1], zero for identical unambiguous sequences, and the SNP/distance columns of plain closest are checked on the same cases.",
+     "tn93 asserted only where the oracle's log arguments are > 0.02; frequencies from the target's A/C/G/T counts as the statement says.",
+     "bounded-exhaustive enumeration + property-based testing (rapid) against independent distance definitions",
+     "non-trivial = a pair with an ambiguous column, a transition and a transversion; distinct = hash of the case",
+     q, t, required_labels=["measure:raw", "measure:snp", "measure:tn93", "tn93:P1,P2,Q>0", "identical-unambiguous"],
+     exhaustive_note="17x17 symbol pairs x 2 contexts x 3 measures")
+
+q, t = tiers(4, 3000, 16, 30000, floor_q=500, floor_t=5000)
+prop("C10", "TestC10", "exploration",
+     "rapid generates references (A/C/G/T or with IUPAC codes) and alignments built from alternating resolved/ambiguous segments (runs at either "
+     "end, length-1 runs, runs one base apart, all-ambiguous rows, random rows); each output row is parsed and the sequence reconstructed "
+     "column by column exactly as the statement reads (range => non-A/C/G/T, SNP => that allele and not in the reference set, else equals "
+     "reference), ranges must be maximal and ascending, counts must match, and the whole text must equal the model's rendering.",
+     "Oracle written from the statement; both directions (nothing missing, nothing extra) because every column is classified.",
+     "property-based testing (rapid): reconstruction round-trip + reference model",
+     "width 1..40 (thorough 200), 1..6 records; non-trivial = a row with >= 2 ambiguity ranges and >= 1 SNP; distinct = hash of the case",
+     q, t, required_labels=["range-at-start", "range-at-end", "all-ambiguous", "ranges-one-base-apart", "range-length-1"])
+
 NOT_CLAIMED = {}
 
 
